@@ -1,4 +1,5 @@
 import Vet.Props.C07
+import Vet.Props.C15
 #print axioms Vet.C07_skip_local_append
 #print axioms Vet.C07_skip_local_unparseable
 #print axioms Vet.C07_skip_local_unknown_criteria
@@ -8,3 +9,4 @@ import Vet.Props.C07
 #print axioms Vet.C07_exclude
 #print axioms Vet.C07_multi_url
 #print axioms Vet.C07_freshness_only_flags
+#print axioms Vet.C07_locked_excluded_refused
